@@ -1,5 +1,6 @@
 (* C11: clauses after the column list (TABLESPACE, STORED AS, LOCATION, ENGINE =, COMMENT =, USING, IN, ROW FORMAT SERDE / word,
-   word TERMINATED BY, COLLECTION ITEMS / MAP KEYS TERMINATED BY, COMMENT 'text', word word, INTO n BUCKETS), any number, subset and order. *)
+   word TERMINATED BY, COLLECTION ITEMS / MAP KEYS TERMINATED BY, COMMENT 'text', word word, INTO n BUCKETS, word (name), ON, TEXTIMAGE_ON),
+   any number, subset and order. *)
 From Coq Require Import String Ascii List ZArith NArith PArith Bool Lia.
 From SDP Require Import Base PyStr LR Lexer Actions Parse RealTables Engine Seq SeqProofs KeywordProofs Entity EntityProofs Table TableProofs TableItemProofs.
 Import ListNotations.
@@ -22,6 +23,7 @@ Definition cpend_of (c : tclause) : cpend :=
   | CComment _ _ => CPCom | CUsing _ _ => CPUs | CIn _ _ => CPIn
   | CRowSerde _ _ _ _ => CPRowSerde | CRowWord _ _ _ => CPRowWord | CTerm _ _ _ _ => CPTerm | CColl _ _ _ _ _ => CPColl
   | CMapKeys _ _ _ _ _ => CPMap | CCommentStr _ _ => CPComStr | CGen _ _ => CPGen | CInto _ _ _ => CPInto
+  | CDist _ _ => CPDist | COn _ _ => CPOn | CTextOn _ _ => CPTextOn
   end.
 Definition clause_ok_after (s : Table.q) (c : tclause) : bool :=
   match s with CB CPTs => negb (starts_plain c) | _ => true end.
@@ -44,6 +46,9 @@ Definition fos_clause (s : Table.q) (c : tclause) : list fout :=
   | CCommentStr _ _ => [(cstate_pend s, "COMMENT", Upper); ([], "STRING_BASE", Keep)]
   | CGen _ _ => [(cstate_pend s, "ID", Keep); (["id -> ID"], "ID", Keep)]
   | CInto _ _ _ => [(cstate_pend s, "INTO", Upper); ([], "ID", Keep); ([], "ID", Keep)]
+  | CDist _ _ => [(cstate_pend s, "ID", Keep); (["id -> ID"], "LP", Keep); ([], "ID", Keep); (["id -> ID"], "RP", Upper)]
+  | COn _ _ => [(cstate_pend s, "ON", Upper); ([], "ID", Keep)]
+  | CTextOn _ _ => [(cstate_pend s, "TEXTIMAGE_ON", Upper); ([], "ID", Keep)]
   end%string.
 
 Lemma frun_clause s c : is_cstate s -> clause_ok_after s c = true ->
@@ -75,12 +80,12 @@ Lemma clause_step norm s c vs d :
               exec norm (map NReduce (cpending (cpend_of c))) vs' = Ok [PDict (clause_apply norm d c)].
 Proof.
   intros Hs Hok Hwf Hp. unfold wf_clause_n in Hwf.
-  destruct c as [k n|k1 k2 v|k sl|k v|k sl|k v|k v|k1 k2 k3 sl|k1 k2 w|w k1 k2 sl|k1 k2 k3 k4 sl|k1 k2 k3 k4 sl|k sl|w1 w2|k n w];
+  destruct c as [k n|k1 k2 v|k sl|k v|k sl|k v|k v|k1 k2 k3 sl|k1 k2 w|w k1 k2 sl|k1 k2 k3 k4 sl|k1 k2 k3 k4 sl|k sl|w1 w2|k n w|w v|k v|k v];
     cbn [wf_clause] in Hwf; split_wf Hwf; kw_uppers;
     repeat match goal with X : negb _ = true |- _ => apply negb_true_iff in X end;
     (eexists; split;
      [ unfold Steps; eexists; split; [apply frun_clause; assumption|]; split; [apply fos_clause_length|];
-       cbn [fos_clause clause_lexemes ntrace snd W SB EQL apply_vtag map app]; rew_uppers;
+       cbn [fos_clause clause_lexemes ntrace snd W SB EQL LPx RPx apply_vtag map app]; rew_uppers; rewrite ?upper_rp;
        rewrite (exec_app _ _ _ _ _ Hp); repeat stepC; rewrite exec_nil; reflexivity
      | cbn [cpend_of cpending map]; repeat stepC; rewrite exec_nil;
        repeat match goal with X : String.eqb _ _ = false |- _ => rewrite X end; reflexivity ]).
@@ -183,7 +188,9 @@ Proof.
     repeat match goal with
            | |- Forall2 _ (_ :: _) (_ :: _) => constructor
            | |- Forall2 _ [] [] => constructor
-           | |- matches (W _) (K _) => apply match_kw; assumption
+           | |- matches LPx LPl => apply match_sym; tauto
+           | |- matches RPx RPl => apply match_sym; tauto
+           | |- matches (W _) (K _) => first [apply match_kw; assumption | apply match_sym; tauto]
            | |- matches (W _) G => apply match_plain; assumption
            | |- matches (SB _) LStr => apply match_str
            | |- matches EQL LEq => exact match_eq
